@@ -9,9 +9,10 @@ import json, os, re, shutil, subprocess, sys, time
 pid, m = sys.argv[1], sys.argv[2]
 checks = sys.argv[3:] or [pid]
 tier = os.environ.get("SEED_TIER", "quick")
-wt = "/tmp/mut/%s" % pid
+root = os.environ.get("SEED_ROOT", "/tmp/mut")
+wt = "%s/%s" % (root, pid)
 md = "%s/_out/%s" % (wt, m)
-clone = "/root/scratch/vseed/%s" % pid
+clone = "/root/scratch/vseed/%s%s" % (os.path.basename(root), pid)
 
 
 def sh(cmd, cwd=None, timeout=7200, env=None):
@@ -20,8 +21,8 @@ def sh(cmd, cwd=None, timeout=7200, env=None):
 
 
 os.makedirs("/root/scratch/vseed", exist_ok=True)
-sh("rsync -a --delete --exclude work --exclude .git --exclude '__pycache__' --exclude 'harness/target' /verif/ %s/" % clone)
-ct = open(clone + "/harness/Cargo.toml").read().replace('path = "/repo/yarel"', 'path = "%s/yarel"' % wt)
+sh("rsync -a --delete --exclude work --exclude .git --exclude __pycache__ --exclude harness/target %s/ %s/" % (os.environ.get("VERIF_SRC", "/verif"), clone))
+ct = re.sub(r'path = "[^"]*/yarel"', 'path = "%s/yarel"' % wt, open(clone + "/harness/Cargo.toml").read())
 open(clone + "/harness/Cargo.toml", "w").write(ct)
 sh("git checkout -q -- yarel yarel-cli", cwd=wt)
 rc, o, e = sh("git apply %s/patch.diff" % md, cwd=wt)
